@@ -30,6 +30,10 @@ BuiltinInfo(n) ==
     [] n = "int2"   -> [b |-> 8, e |-> "int",    c |-> 2]
     [] n = "int4"   -> [b |-> 16, e |-> "int",   c |-> 4]
     [] n = "double2" -> [b |-> 16, e |-> "double", c |-> 2]
+    [] n = "long2"  -> [b |-> 16, e |-> "long",  c |-> 2]
+    [] n = "long4"  -> [b |-> 32, e |-> "long",  c |-> 4]
+    [] n = "short2" -> [b |-> 4, e |-> "short",  c |-> 2]
+    [] n = "char4"  -> [b |-> 4, e |-> "char",   c |-> 4]
 IsVector(d) == d.k = "builtin" /\ BuiltinInfo(d.n).c > 1
 \* the name a builtin reports: aliases are the registered object they alias
 BuiltinName(n) == IF BuiltinInfo(n).c = 1 THEN BuiltinInfo(n).e ELSE n
